@@ -22,7 +22,7 @@ import fnmatch, io, struct, sys, traceback
 from collections import deque
 
 from mc import env
-from mc.engine import pmap, LineBudget
+from mc.engine import pmap
 from mc.report import Report
 from mc.refs import ofwire as W
 from mc.refs import ofwire_s2c as S
@@ -38,6 +38,52 @@ VERSIONS = (0, 2, 4, 0xff)
 TYPE_EDGE = tuple(range(0, 24)) + (0x7f, 0x80, 0xfe, 0xff)
 
 _CUR = [None]
+
+
+class BudgetExceeded (BaseException):
+  pass
+
+
+class MonBudget (object):
+  """Deterministic non-termination detector on sys.monitoring LINE events of the files under test.
+  (mc.engine.LineBudget raises from a sys.settrace function; CPython then switches tracing OFF, so a
+  bare `except:` in pox that swallows the exception - Connection.read has one around the handler
+  call - leaves the loop running untraced for ever.  A sys.monitoring callback stays armed and
+  raises again on every following line until the exception has left pox.)"""
+  TOOL = 3
+  _installed = False
+  active = False
+  count = 0
+  budget = 0
+  tripped = False
+
+  @classmethod
+  def _cb (cls, code, line):
+    if not code.co_filename.endswith(FILES): return sys.monitoring.DISABLE
+    if not cls.active: return None
+    cls.count += 1
+    if cls.count > cls.budget:
+      cls.tripped = True
+      raise BudgetExceeded()
+
+  @classmethod
+  def install (cls):
+    if cls._installed: return
+    mon = sys.monitoring
+    mon.use_tool_id(cls.TOOL, "c10-line-budget")
+    mon.register_callback(cls.TOOL, mon.events.LINE, cls._cb)
+    mon.set_events(cls.TOOL, mon.events.LINE)
+    cls._installed = True
+
+  @classmethod
+  def arm (cls, budget):
+    cls.install()
+    cls.count = 0; cls.budget = budget; cls.tripped = False; cls.active = True
+
+  @classmethod
+  def disarm (cls):
+    cls.active = False
+    return cls.tripped
 
 
 # ---------------------------------------------------------------------------------------------
@@ -67,7 +113,7 @@ class RecLog (object):
   debug = info = warning = warn = error = critical = log = _n
   def exception (self, *a, **k):
     et, ev, tb = sys.exc_info()
-    if et is not None and et is not LineBudget.BudgetExceeded and et is not GeneratorExit:
+    if et is not None and et is not BudgetExceeded and et is not GeneratorExit:
       self.exc.append(site_of(et, tb))
   def isEnabledFor (self, lvl): return False
 
@@ -109,19 +155,19 @@ class World (object):
   # -- driving ------------------------------------------------------------------------------
   def step (self, r, w=()):
     self.nsend += 1
-    lb = LineBudget(FILES, BUDGET)
-    with lb:
-      try:
-        if self.sel is None: self.sel = next(self.g)
-        else: self.sel = self.g.send((list(r), list(w), []))
-      except StopIteration:
-        self.dead = "returned"
-      except LineBudget.BudgetExceeded:
-        self.dead = "budget"
-      except Exception as e:
-        self.dead = "raised"
-        self.dead_site = site_of(type(e), e.__traceback__)
-    if lb.tripped: self.tripped = True
+    MonBudget.arm(BUDGET)
+    try:
+      if self.sel is None: self.sel = next(self.g)
+      else: self.sel = self.g.send((list(r), list(w), []))
+    except StopIteration:
+      self.dead = "returned"
+    except BudgetExceeded:
+      self.dead = "budget"
+    except Exception as e:
+      self.dead = "raised"
+      self.dead_site = site_of(type(e), e.__traceback__)
+    finally:
+      if MonBudget.disarm(): self.tripped = True
     return not (self.dead or self.tripped)
 
   def settle (self):
@@ -293,7 +339,7 @@ class SwWorld (World):
       self.loop.register_worker(w)
       c = swm.OFConnection(w)
       c.log = RecLog(); self.logs.append(c.log)
-      sw = swm.SoftwareSwitch(0x30 + i, ports=2, expire_period=0)
+      sw = swm.SoftwareSwitch(0x30 + i, ports=2)
       sw.set_connection(c)
       orig = c.on_message_received
       c.on_message_received = self._mk(i, orig)
@@ -327,7 +373,7 @@ class SwWorld (World):
     out = []
     for x in self.sel._args[0]:
       if x in self.workers: out.append(self.workers.index(x))
-    return out
+    return sorted(out)
 
   def finish (self):
     try: self.g.close()
@@ -370,7 +416,7 @@ def valid_msg (side, i, n):
     return Piece(S.barrier_reply(x), True, "barrier-reply")
   k = n % 4
   if k == 0: return Piece(W.echo_request(x, b"keepalive%d" % n), True, "echo-request")
-  if k == 1: return Piece(W.flow_mod(x, W.match_fields(in_port=1 + (n & 1)), actions=W.a_output(2), priority=100 + n), True, "flow-mod")
+  if k == 1: return Piece(W.set_config(x, 0, 64 + n), True, "set-config")
   if k == 2: return Piece(W.barrier_request(x), True, "barrier-request")
   return Piece(W.get_config_request(x), True, "get-config-request")
 
@@ -737,7 +783,8 @@ def replay (cfg, data):
   inst = insts[case["inst"]]
   lines = ["case: %r (%s)" % (case, inst.name)]
   lines.append("hostile stream pieces: " + " | ".join("%s:%s" % (p.label, (p.data.hex() if len(p.data) <= 40 else p.data[:16].hex() + "..(%d bytes)" % len(p.data)) if p.data else "?") for p in w.pushed[HOSTILE]))
-  lines.append("hostile deliveries: %r" % [(d["cls"], d["closed"]) for d in w.deliv[HOSTILE]])
+  dl = [(d["cls"], d["closed"]) for d in w.deliv[HOSTILE]]
+  lines.append("hostile deliveries (%d): %r%s" % (len(dl), dl[:12], " ..." if len(dl) > 12 else ""))
   lines.append("errors sent on hostile: %r" % [(hex(x), tc) for x, d, tc in w.errs[HOSTILE]])
   lines.append("closed: %r  loop: %s  tripped: %s  selecting: %r" % (w.closed, w.dead or "alive", w.tripped, w.final_sel))
   lines.append("sibling deliveries: %r of %r" % ([len(w.deliv[0]), len(w.deliv[2])], [len(w.pushed[0]), len(w.pushed[2])]))
